@@ -329,6 +329,16 @@ func baseProfile(r *sim.Rand, small bool) sim.Profile {
 }
 
 func profileFor(prop string, r *sim.Rand, i int, quick bool) sim.Profile {
+	p := profileFor0(prop, r, i, quick)
+	switch prop {
+	case "C02", "C04", "C05", "C06", "C07", "C08", "C09", "C10", "C01", "C11":
+		// Tendermint's block times carry nanoseconds; scenario scripts (i%8 == 1, 3, 5) keep whole seconds
+		p.SubSecond = i%8 == 2 || i%8 == 6
+	}
+	return p
+}
+
+func profileFor0(prop string, r *sim.Rand, i int, quick bool) sim.Profile {
 	small := i%2 == 1
 	p := baseProfile(r, small)
 	p.Blocks = 120
